@@ -1,6 +1,84 @@
-(* C14 - placeholder until Proofs/OutputFacts.v lands. *)
-From Coq Require Import List.
-From BB Require Import Base.Names.
-Theorem C14_placeholder : forall l, NoDup (uniquify l).
-Proof. exact uniquify_NoDup. Qed.
-Print Assumptions C14_placeholder.
+(* C14 - AWG5014 package: normalised in-range samples, faithful sequencing, exact slicing.
+   Only statements; proofs in Proofs/OutputFacts.v (the real-number version of the normalisation and the pinned
+   raise conditions are in Props/C14n.v, about the re-translated source). *)
+From Coq Require Import String List ZArith QArith Bool.
+From BB Require Import Base.Names Base.Num Base.PyList Model.Types Model.Blueprint Model.Forge Model.Element
+  Model.PyVal Model.Sequence Model.Output Proofs.OutputFacts.
+Import ListNotations.
+
+(* inside the channel range the delivered sample lies in [-1, 1]; outside it does not (nothing is clipped) *)
+Theorem C14_normalised_range : forall v ampl off : Q,
+  (0 < ampl)%Q ->
+  ((off - ampl / 2 <= v /\ v <= off + ampl / 2) <-> (-1 <= rescaleQ v ampl off /\ rescaleQ v ampl off <= 1))%Q.
+Proof. exact normalised_range. Qed.
+
+(* the voltage guard handed to the back end is exactly [off - ampl/2, off + ampl/2] for every position and channel,
+   and the delivered plan is the normalisation of the guarded one *)
+Theorem C14_ranges_and_scaling : forall s ranges p,
+  output_awg s = Ok (ranges, Ok p) ->
+  forall w lo hi, In (w, lo, hi) ranges ->
+    exists ch ampl off, spec_num s (key_amp ch) EKey = Ok ampl /\ spec_num s (key_off ch) EKey = Ok off /\
+                        lo = (- ampl / 2 + off)%Q /\ hi = (ampl / 2 + off)%Q.
+Proof. exact ranges_and_scaling. Qed.
+
+(* sequencing settings: accepted exactly inside the instrument ranges ... *)
+Theorem C14_sequencing_ranges : forall n q,
+  awg_seq_ok n q = true <->
+  ((twait q = 0 \/ twait q = 1) /\ 0 <= nrep q <= 65536 /\ -1 <= jump_target q <= n /\ 0 <= goto q <= n)%Z.
+Proof. exact awg_seq_ok_spec. Qed.
+
+(* ... delivered in position order, unmodified; any setting outside them is a SequencingError, never clipped *)
+Theorem C14_sequencing_lists : forall s ranges p,
+  output_awg s = Ok (ranges, Ok p) ->
+  exists sq, mapM (get_sq s) (range1 (length sq)) = Ok sq /\
+    Forall (fun q => awg_seq_ok (Z.of_nat (length sq)) q = true) sq /\
+    a_nreps p = map nrep sq /\ a_twaits p = map twait sq /\ a_gotos p = map goto sq /\ a_jumps p = map jump_target sq.
+Proof. exact awg_sequencing_lists. Qed.
+
+Theorem C14_sequencing_error : forall s chans okf wf els k q,
+  nth_error (range1 (length els)) k = Some q -> (exists sqv, get_sq s q = Ok sqv /\ okf sqv = false) ->
+  (forall j qj, (j < k)%nat -> nth_error (range1 (length els)) j = Some qj -> exists v, get_sq s qj = Ok v /\ okf v = true) ->
+  (forall l c, In l els -> In c chans -> exists p a b, prep_find l c = Ok p /\ chout_marker (pout p) (S_ "m1") = Ok a /\
+                                                         chout_marker (pout p) (S_ "m2") = Ok b) ->
+  cast_positions s chans okf wf els = Err ESequencing.
+Proof. exact cast_sequencing_error. Qed.
+
+(* Python's range(start, stop, step) for a positive step *)
+Theorem C14_py_range : forall a b, py_range a b 1 = map (fun k => (a + Z.of_nat k)%Z) (List.seq 0 (Z.to_nat (b - a))).
+Proof. exact py_range_step1. Qed.
+
+(* indexing: pkg[i] equals pkg[i:i+1]; pkg[:] is everything, in order; the four sequencing lists stay intact *)
+Theorem C14_index_is_slice : forall p i, (0 <= i)%Z ->
+  awg_getitem p (IdxInt i) = awg_getitem p (IdxSlice (Some i) (Some (i + 1)%Z) None).
+Proof. exact index_is_slice. Qed.
+
+Theorem C14_full_slice : forall p,
+  length (a_m1s p) = length (a_wfms p) -> length (a_m2s p) = length (a_wfms p) ->
+  awg_getitem p (IdxSlice None None None) =
+  Ok (PTuple ([PList (map PList (a_wfms p)); PList (map PList (a_m1s p)); PList (map PList (a_m2s p))] ++ awg_tail p)).
+Proof. exact full_slice. Qed.
+
+Theorem C14_slice_selects : forall p st sp i j r,
+  (0 <= i <= j)%Z -> st = Some i -> sp = Some j ->
+  awg_getitem p (IdxSlice st sp None) = Ok r ->
+  exists w a b, select (a_wfms p) (py_range i j 1) = Ok w /\ select (a_m1s p) (py_range i j 1) = Ok a /\
+                select (a_m2s p) (py_range i j 1) = Ok b /\
+                r = PTuple ([PList (map PList w); PList (map PList a); PList (map PList b)] ++ awg_tail p) /\
+                length w = Z.to_nat (j - i) /\
+                forall k, (k < Z.to_nat (j - i))%nat -> nth_error w k = nth_error (a_wfms p) (Z.to_nat i + k).
+Proof. exact slice_selects. Qed.
+
+Theorem C14_slicing_keeps_sequencing : forall p ix l,
+  awg_getitem p ix = Ok (PTuple l) -> skipn 3 l = awg_tail p.
+Proof. exact slicing_keeps_sequencing. Qed.
+
+Print Assumptions C14_normalised_range.
+Print Assumptions C14_ranges_and_scaling.
+Print Assumptions C14_sequencing_ranges.
+Print Assumptions C14_sequencing_lists.
+Print Assumptions C14_sequencing_error.
+Print Assumptions C14_py_range.
+Print Assumptions C14_index_is_slice.
+Print Assumptions C14_full_slice.
+Print Assumptions C14_slice_selects.
+Print Assumptions C14_slicing_keeps_sequencing.
